@@ -54,7 +54,7 @@ fn case_strategy(tier: Tier) -> BoxedStrategy<CacheCase> {
     (
         0u8..3,
         1usize..=4,
-        prop_oneof![2 => Just(None), 3 => (20u64..=100).prop_map(Some), 1 => Just(Some(100_000u64))],
+        prop_oneof![4 => Just(None), 6 => (20u64..=100).prop_map(Some), 2 => Just(Some(100_000u64)), 1 => Just(Some(0u64)), 1 => Just(Some(1u64))],
         0u8..3,
         2u32..=7,
         prop::collection::vec(op, 0..=max_ops),
